@@ -100,6 +100,9 @@ func lastStart(pg *enginev2alpha2.PodGroup) (time.Time, bool) {
 // the answer is far enough from the boundary to be independent of wall-clock jitter.
 func protectedBy(pg *enginev2alpha2.PodGroup, d time.Duration, now time.Time) (protected, robust bool) {
 	st, ok := lastStart(pg)
+	if obs, seen := observedStart[pg.Name]; seen && (!ok || obs.After(st)) {
+		st, ok = obs, true
+	}
 	if !ok || d <= 0 {
 		return false, true
 	}
@@ -111,9 +114,46 @@ func protectedBy(pg *enginev2alpha2.PodGroup, d time.Duration, now time.Time) (p
 	return now.Before(until), diff > 5*time.Minute
 }
 
+// observedStart is the oracle's own record of when a workload (re)started in the current case: the time of the cycle
+// in which allocate bound pods of a workload that had no active (non-terminating, placed) pod before. The
+// last-start-timestamp annotation in the store is written by the scheduler itself after the first cycle, so the
+// oracle only trusts it for what the generator put there. Reset per case (ResetC06).
+var observedStart = map[string]time.Time{}
+
+// ResetC06 forgets the observed starts (new case).
+func ResetC06() { observedStart = map[string]time.Time{} }
+
 // CheckC06: only eligible victims are evicted, and only to place a workload.
 func CheckC06(m *Model, events []sched.Event, cycle int, now time.Time, st *Stats) []run.Violation {
 	var out []run.Violation
+	// (re)starts of this cycle, in event order: a bind by allocate for a workload without active pods
+	activeBefore := map[string]int{}
+	for _, p := range m.O.Pods {
+		if g := p.Annotations["pod-group-name"]; g != "" && m.Active(p) {
+			activeBefore[g]++
+		}
+	}
+	restartAt := map[string]int{} // group -> index of the event that (re)started it in this cycle
+	for i := range events {
+		e := &events[i]
+		if OK(e) && e.Kind == "bind" && e.Action == "allocate" && activeBefore[e.Group] == 0 {
+			if _, seen := restartAt[e.Group]; !seen {
+				restartAt[e.Group] = i
+				st.Inc("workload_starts_observed")
+				for _, p := range m.O.Pods {
+					if p.Annotations["pod-group-name"] == e.Group && p.DeletionTimestamp != nil && p.Spec.NodeName != "" {
+						st.Inc("workload_restarts_while_old_pod_terminating")
+						break
+					}
+				}
+			}
+		}
+	}
+	defer func() {
+		for g := range restartAt {
+			observedStart[g] = now
+		}
+	}()
 	failedInAction := map[string]bool{}
 	placedByAction := map[string]map[string]bool{} // action -> group placed (bind/pipeline ok)
 	pipedTo := map[string]map[string]string{}      // action -> pod key -> node
@@ -172,6 +212,14 @@ func CheckC06(m *Model, events []sched.Event, cycle int, now time.Time, st *Stat
 	}
 	for i := range events {
 		e := &events[i]
+		if ri, ok := restartAt[e.Group]; ok && ri < i {
+			observedStart[e.Group] = now // (re)started earlier in this very cycle
+		}
+		if e.Kind == "evict" && OK(e) {
+			if _, restarted := observedStart[e.Group]; restarted {
+				st.Inc("evictions_of_workload_started_in_this_case")
+			}
+		}
 		if e.Kind != "evict" || !OK(e) {
 			continue
 		}
